@@ -954,7 +954,9 @@ class Decision:
                     if v.ty.kind in ("int", "bool", "dur", "tp") and not self.t.assigned(d["id"], ss[i + 1:]):
                         name = lean_ident(d.get("name"), [p for p, _ in self.t.spec])
                         self.t.locals[d["id"]] = (name, v.ty)
-                        rest_txt = self.walk(ss[i + 1:], path + ["neutral let " + name], ind)
+                        # a local that reads the object's state is only the same decision when no guard is taken after it
+                        tag = "neutral letstate " if any(x.get("kind") == "CXXThisExpr" for x in walk(kids(d)[-1])) else "neutral let "
+                        rest_txt = self.walk(ss[i + 1:], path + [tag + name], ind)
                         return "%slet %s : %s := %s\n%s" % (pad, name, "Bool" if v.ty == BOOL else "Int",
                                                             as_bool(v) if v.ty == BOOL else v.s, rest_txt)
                 except Untranslatable:
@@ -962,6 +964,8 @@ class Decision:
             text = canon_stmt(s)
             if k == "DeclStmt" and NEUTRAL_DECL_TYPES.search(re.sub(r"^const\s+", "", (kids(s)[0].get("type") or {}).get("qualType", ""))):
                 text = "neutral " + text
+                if any(p.startswith("neutral letstate ") for p in path):
+                    fail("the object's state is read before the guard `%s` is taken" % text[8:60])
             path.append(text)
             i += 1
             if k == "ReturnStmt" or (k in STRIP and _strip(s)["kind"] == "CXXThrowExpr") or k == "CXXThrowExpr":
